@@ -89,6 +89,19 @@ def run_packet_api(tape):
                 accepted.append((cmd, idx, address, data, preset, writer and sterile))
                 size += 12 + ln
                 n += 1
+            if tape.chance("c11/assembled-while-being-filled", 12):
+                # a frame is taken from the packet (assembled, or as sterile copy) before
+                # the last datagram is in: what is assembled later holds them all
+                try:
+                    if sterile and tape.chance("c11/early-sterile", 50):
+                        p.sterile(7, 0x88A4)
+                    else:
+                        p.assemble(7, 0x88A4)
+                    world.count("c11/frame-taken-before-the-last-datagram")
+                except Exception as e:
+                    viol("frame-malformed", f"packet {pno}: early assemble raised "
+                         f"{type(e).__name__}: {e}", exception=type(e).__name__)
+                    return
         index = 2000 + tape.draw("c11/index", 1 << 20)
         hist.append((sterile, n, size))
         try:
@@ -146,6 +159,24 @@ def run_packet_api(tape):
             if diff != nonzero or any(ster[w] != 0 for w in writers):
                 viol("sterile-differs", f"packet {pno}: sterile and assembled frame differ at "
                      f"{sorted(diff)}, write datagram command bytes are at {sorted(writers)}")
+                return
+        if tape.chance("c11/assembled-again", 50):
+            # the same packet assembled once more (after the sterile copy was made): the
+            # same frame as before
+            try:
+                again = p.assemble(index, 0x88A4)
+            except Exception as e:
+                viol("frame-malformed", f"packet {pno}: second assemble raised "
+                     f"{type(e).__name__}: {e}", exception=type(e).__name__)
+                return
+            frames.append(again)
+            if again != full:
+                at = next((i for i in range(min(len(again), len(full))) if again[i] != full[i]),
+                          min(len(again), len(full)))
+                viol("frame-position-mismatch",
+                     f"packet {pno}: assembled a second time{' after sterile()' if sterile else ''}"
+                     f" the frame differs from the first one at byte {at} "
+                     f"({full[at:at + 4].hex()} -> {again[at:at + 4].hex()})", again=True)
 
     with env:
         for pno in range(2 + tape.draw("c11/npackets", 2)):
